@@ -28,6 +28,10 @@ only the keys it names), with the two routing hashes of the code as two function
   PX / EX deadlines, eviction, every entry path incl. the batch pipelines): when every message
   kind carries the virtual time, N shards and one shard give the same replies for every run with
   monotone time; `stale_clock_*_counterexample` for a kind that does not adopt the time.
+* `route_same_on_all_paths`, `one_message_goes_to_cmdShard`, `routed_by_first_key_refines` — one
+  route function of the whole key for every path and command kind; every one-message command goes
+  to the home of its first key.  `path_dependent_route_counterexample` (ANY two route functions
+  that differ on a key), `routed_to_shard0_counterexample`.
 * `…_counterexample` — what the pinned code does outside these hypotheses (all replayed on the
   real code by the harness on every run): the two hashes differ (`fast_set` then generic `STRLEN`),
   two-key commands run on the first key's shard (RENAME), MSETNX likewise, SCAN drops the shards'
@@ -427,6 +431,34 @@ theorem same_shard_two_key_refines (hL : E.Local) (R : Routes) (fixed : Bool) (h
         · rw [← e1, hab'])
     (by intro hp; simp [primaryKey] at hp)
 
+/-- every command that travels as one message is executed on `cmdShard`: the home of its first key -/
+theorem one_message_goes_to_cmdShard (R : Routes) (fixed : Bool) (st : Shards S.Val) (c : Cmd S)
+    (h : OneMessage c = true) : execN E R fixed st c = onShard E st (cmdShard R fixed c) c := by
+  cases c with
+  | single k op => rfl
+  | two a b op => rfl
+  | fastGet k => rfl
+  | fastSet k v => rfl
+  | msetnx kvs =>
+    cases kvs with
+    | nil => simp [OneMessage] at h
+    | cons kv rest => rfl
+  | del ks =>
+    match ks, h with
+    | [k], _ => rfl
+  | _ => simp [OneMessage] at h
+
+/-- **a command routed by its first key refines the single store**, provided all the keys it
+    names live on that shard (always true of single-key commands) -/
+theorem routed_by_first_key_refines (hL : E.Local) (R : Routes) (fixed : Bool)
+    {st : Shards S.Val} (h : Inv R st) (c : Cmd S)
+    (h1 : OneMessage c = true) (hk : Keyed c = true) (hi : cmdShard R fixed c < R.N)
+    (hall : ∀ k ∈ keyList c, R.bytes k = cmdShard R fixed c) :
+    Inv R (execN E R fixed st c).1 ∧ abs (execN E R fixed st c).1 = (E.exec (abs st) c).1 ∧
+    (execN E R fixed st c).2 = (E.exec (abs st) c).2 := by
+  rw [one_message_goes_to_cmdShard R fixed st c h1]
+  exact refine_keyed hL h c hk _ hi hall
+
 /-- MSETNX whose keys all live on the first key's shard -/
 theorem same_shard_msetnx_refines (hL : E.Local) (R : Routes) (fixed : Bool) (hv : R.Valid)
     (hN : 0 < R.N) (hc : Consistent R fixed) {st : Shards S.Val} (h : Inv R st)
@@ -621,6 +653,63 @@ theorem C03_statement_repaired_counterexample : ¬ C03_statement Str.exec true :
     [.single 1 (.set [49]), .two 1 2 .rename, .single 2 .get]).2
   revert this
   decide
+
+/-- **one route for all paths** (the model of the current code, `fixed = true`; no hypothesis on
+    the hash functions): the generic route, the fast / pooled route and the batch route of a key are
+    the same function of the WHOLE key, whatever the command kind -/
+theorem route_same_on_all_paths {S : Sig} (R : Routes) (k k2 : Key) (v : Bytes) (op : S.Op) (op2 : S.Op2) :
+    R.gen true k = R.bytes k ∧
+    cmdShard R true (.single k op : Cmd S) = R.bytes k ∧
+    cmdShard R true (.two k k2 op2 : Cmd S) = R.bytes k ∧
+    cmdShard R true (.fastGet k : Cmd S) = R.bytes k ∧
+    cmdShard R true (.fastSet k v : Cmd S) = R.bytes k ∧
+    cmdShard R true (.batchGet [k] : Cmd S) = R.bytes k ∧
+    cmdShard R true (.batchSet [(k, v)] : Cmd S) = R.bytes k ∧
+    cmdShard R true (.del [k] : Cmd S) = R.bytes k ∧
+    cmdShard R true (.msetnx [(k, v)] : Cmd S) = R.bytes k :=
+  ⟨rfl, rfl, rfl, rfl, rfl, rfl, rfl, rfl, rfl⟩
+
+theorem shard_init_empty (ν : Type) (n i : Nat) : shard (Shards.init ν n) i = [] := by
+  unfold shard Shards.init
+  rw [List.getD_eq_getElem?_getD]
+  cases h : (List.replicate n ([] : Store ν))[i]? with
+  | none => rfl
+  | some x => exact List.eq_of_mem_replicate (List.mem_of_getElem? h)
+
+/-- **a path-dependent route** — ANY two route functions that differ on some key `k` (the hashes
+    before fix 872671c; `{tag}` hashing on the generic route only; …): `fast_set k v` stores the key in
+    `bytes k`, a generic `STRLEN k` looks in `str k ≠ bytes k` and answers 0; one shard answers 1 -/
+theorem path_dependent_route_counterexample (R : Routes) (k : Key) (hv : R.Valid)
+    (hne : R.str k ≠ R.bytes k) :
+    (observe Str.exec R false [.fastSet k [104], .single k .strlen]).2 = [.one .ok, .one (.int 0)] ∧
+    (observe Str.exec oneShard false [.fastSet k [104], .single k .strlen]).2 =
+      [.one .ok, .one (.int 1)] := by
+  constructor
+  · have hb : R.bytes k < (Shards.init SVal R.N).length := by simp [Shards.init]; exact (hv k).2
+    show [_, (routePrimary Str.exec R false
+        ((Shards.init SVal R.N).set (R.bytes k) (NMap.insert k (SVal.str [104]) (shard (Shards.init SVal R.N) (R.bytes k))))
+        (.single k .strlen)).2] = _
+    have hsh : shard ((Shards.init SVal R.N).set (R.bytes k)
+        (NMap.insert k (SVal.str [104]) (shard (Shards.init SVal R.N) (R.bytes k)))) (R.str k) = [] := by
+      rw [shard_set, if_neg (fun x => hne x.1.symm), shard_init_empty]
+    show [Reply.one .ok, (Str.exec1 (shard _ (R.str k)) k .strlen).2] = _
+    rw [hsh]
+    rfl
+  · show [Reply.one .ok, (Str.exec1 (shard ([([] : Str.St)].set 0 (NMap.insert k (SVal.str [104]) [])) 0) k .strlen).2] = _
+    have : shard ([([] : Str.St)].set 0 (NMap.insert k (SVal.str [104]) [])) 0 = [(k, SVal.str [104])] := rfl
+    rw [this]
+    show [Reply.one .ok, (Str.slot1 .strlen (NMap.get [(k, SVal.str [104])] k)).2] = _
+    simp [NMap.get, Str.slot1]
+
+/-- **routed to shard 0 instead of the key's home** (seed C02-evalsha-routed-to-shard0: EVALSHA lost
+    its primary key): key 2 lives on shard 1; `fast_set 2 v` then the same GET sent to shard 0
+    answers nil, sent to `cmdShard` it answers `v` -/
+theorem routed_to_shard0_counterexample :
+    (onShard Str.exec (execN Str.exec twoRoutes true (Shards.init SVal 2) (.fastSet 2 [118])).1 0
+      (.single 2 .get)).2 = .one .nil ∧
+    (execN Str.exec twoRoutes true (execN Str.exec twoRoutes true (Shards.init SVal 2) (.fastSet 2 [118])).1
+      (.single 2 .get)).2 = .one (.bulk [118]) ∧
+    cmdShard twoRoutes true (.single 2 .get : Cmd Str.sig) = 1 := by decide
 
 end counterexamples
 
